@@ -3,13 +3,13 @@ import os, re, subprocess, json
 from .. import core, chargen
 
 
-def run_stress(ctx, goroutines, iters, seed, procs=None, timeout=900):
+def run_stress(ctx, goroutines, iters, seed, procs=None, timeout=900, mode="os"):
     exe = os.path.join(core.BUILD, "spgrace")
     env = dict(os.environ, GORACE="halt_on_error=0 exitcode=66 history_size=3")
     if procs:
         env["GOMAXPROCS"] = str(procs)
     try:
-        p = subprocess.run([exe, str(goroutines), str(iters), str(seed)], stdout=subprocess.PIPE, stderr=subprocess.PIPE, text=True,
+        p = subprocess.run([exe, str(goroutines), str(iters), str(seed), mode], stdout=subprocess.PIPE, stderr=subprocess.PIPE, text=True,
                            timeout=timeout, env=env)
     except subprocess.TimeoutExpired:
         ctx.notes.append("stress run timed out")
@@ -22,7 +22,7 @@ def run_stress(ctx, goroutines, iters, seed, procs=None, timeout=900):
         report = p.stderr[i:i + 3000]
     return {"rc": p.returncode, "calls": int(m.group(1)) if m else 0, "combos": int(m.group(2)) if m else 0,
             "invalid": int(m.group(3)) if m else -1, "first": m.group(4) if m else p.stdout[-300:] + p.stderr[-600:], "races": races, "report": report,
-            "args": [goroutines, iters, seed, procs]}
+            "args": [goroutines, iters, seed, procs, mode]}
 
 
 def judge(ctx, r):
@@ -32,7 +32,7 @@ def judge(ctx, r):
     for k in range(r["combos"]):
         ctx.nontrivial.add(("combo", k))
     ctx.traces_validated += r["calls"] - max(r["invalid"], 0)
-    base = {"stress_args": r["args"], "line": "spgrace %d %d %d" % tuple(r["args"][:3])}
+    base = {"stress_args": r["args"], "line": "spgrace %d %d %d %s" % (r["args"][0], r["args"][1], r["args"][2], r["args"][4])}
     if r["races"]:
         ctx.violations.append(dict(base, finding_key="C14-race", what="the race detector reported %d data race(s) while goroutines shared recipes, lists and separator functions" % r["races"],
                                    race_report=r["report"]))
@@ -54,10 +54,15 @@ def correspondence(ctx):
     if not getattr(ctx.build, "race_ok", False):
         ctx.mismatches.append({"family": "race-build", "case": "go build -race", "impl": ctx.build.race_log[-800:], "model": None, "meta": {}})
         return
-    g, it = (8, 1200) if ctx.tier == "quick" else (32, 20000)
+    g, it = (8, 1000) if ctx.tier == "quick" else (32, 20000)
     r = run_stress(ctx, g, it, ctx.seed % 1000)
     ctx.stress = [r]
     judge(ctx, r)
+    if not ctx.violations:
+        # the same sharing with a goroutine-safe source that forces the rare paths (every other raw word is rejected)
+        r2 = run_stress(ctx, g, it // 4, ctx.seed % 1000 + 1, mode="forced")
+        ctx.stress.append(r2)
+        judge(ctx, r2)
     if r:
         ctx.sample({"goroutines": g, "iterations": it, "calls": r["calls"], "combos": r["combos"], "races": r["races"], "invalid": r["invalid"]})
 
@@ -68,7 +73,7 @@ def oracle(ctx, deep):
         return
     runs = [(16, 1500, 2, 4), (4, 3000, 3, 2)] if not deep else [(16, 6000, 2, 4), (4, 12000, 3, 2), (64, 3000, 4, None), (32, 6000, 5, 16), (2, 20000, 6, 2)]
     for g, it, sd, procs in runs:
-        r = run_stress(ctx, g, it, sd + ctx.seed % 1000, procs)
+        r = run_stress(ctx, g, it, sd + ctx.seed % 1000, procs, mode=("forced" if sd % 2 else "os"))
         judge(ctx, r)
         if ctx.violations:
             return
@@ -81,10 +86,11 @@ def replay(v):
         print("->", r.get("r"))
         print("violation:", v["what"])
         return 1
-    g, it, sd, procs = v["stress_args"]
+    g, it, sd, procs = v["stress_args"][:4]
+    mode = v["stress_args"][4] if len(v["stress_args"]) > 4 else "os"
     class C:  # minimal ctx
         notes = []
-    r = run_stress(C, g, it, sd, procs)
+    r = run_stress(C, g, it, sd, procs, mode=mode)
     print("spgrace", g, it, sd, "GOMAXPROCS=%s" % procs)
     print("->", {k: r[k] for k in ("rc", "calls", "invalid", "races", "first")} if r else None)
     if r and r["report"]:
